@@ -43,6 +43,7 @@ package binary
 //@ template rd_varint(VAL)
 //@   ensures ok: old(tagl(p)) > 0 ==> r1 == nil && p.Read == old(p.Read) + old(tagl(p)) && r0 == VAL
 //@   ensures bad: old(tagl(p)) == 0 ==> r1 != nil && p.Read == old(p.Read)
+//@   ensures adv: old(p.Read) <= p.Read && p.Read <= old(p.Read) + 10 && (r1 == nil ==> old(p.Read) < p.Read)
 //@   modifies p.Read
 //@ end
 
@@ -99,6 +100,7 @@ package binary
 //@ template rd_fixed(N, VAL)
 //@   ensures ok: old(p.Read) + N <= len(p.Buf) ==> r1 == nil && p.Read == old(p.Read) + N && VAL
 //@   ensures bad: old(p.Read) + N > len(p.Buf) ==> r1 != nil && p.Read == old(p.Read)
+//@   ensures adv: old(p.Read) <= p.Read && (r1 == nil ==> old(p.Read) < p.Read)
 //@   modifies p.Read
 //@ end
 
@@ -126,6 +128,24 @@ package binary
 //@   props C20 C06 C07
 //@   use rd_fixed(8, bits(r0) == protowire.le64(p.Buf, old(p.Read)))
 
+// ---- ReadInt: one decoding per integer kind ------------------------------------------------------------
+// pbvar: the kind is varint-encoded; pbfix4/pbfix8: fixed width; anything else is rejected without moving.
+//@ pure pbvar(t proto.Type) bool = t == proto.INT32 || t == proto.SINT32 || t == proto.UINT32 || t == proto.INT64 || t == proto.SINT64 || t == proto.UINT64
+//@ pure pbintv(t proto.Type, v uint64) int = ite(t == proto.INT32, sx(int32(v)), ite(t == proto.SINT32, sx(protowire.unzz32(uint32(v))), \
+//@      ite(t == proto.UINT32, zx(uint32(v)), ite(t == proto.INT64, int(v), ite(t == proto.SINT64, int(protowire.unzz(v)), int(v))))))
+
+//@ spec (*BinaryProtocol).ReadInt
+//@   props C07 C06 C01
+//@   ensures var_ok: pbvar(t) && old(tagl(p)) > 0 ==> err == nil && p.Read == old(p.Read) + old(tagl(p)) && value == pbintv(t, old(tagv(p)))
+//@   ensures var_bad: pbvar(t) && old(tagl(p)) == 0 ==> err != nil && p.Read == old(p.Read)
+//@   ensures f32_ok: t == proto.SFIX32 && old(p.Read) + 4 <= len(p.Buf) ==> err == nil && p.Read == old(p.Read) + 4 && value == sx(int32(protowire.le32(p.Buf, old(p.Read))))
+//@   ensures f32_bad: t == proto.SFIX32 && old(p.Read) + 4 > len(p.Buf) ==> err != nil && p.Read == old(p.Read)
+//@   ensures f64_ok: t == proto.SFIX64 && old(p.Read) + 8 <= len(p.Buf) ==> err == nil && p.Read == old(p.Read) + 8 && value == int(protowire.le64(p.Buf, old(p.Read)))
+//@   ensures f64_bad: t == proto.SFIX64 && old(p.Read) + 8 > len(p.Buf) ==> err != nil && p.Read == old(p.Read)
+//@   ensures other: !pbvar(t) && t != proto.SFIX32 && t != proto.SFIX64 ==> err != nil && p.Read == old(p.Read)
+//@   ensures adv: old(p.Read) <= p.Read && (err == nil ==> old(p.Read) < p.Read)
+//@   modifies p.Read
+
 // ---- length-delimited --------------------------------------------------------------------------------
 // a complete length-delimited value starts at the cursor
 //@ pure ld_ok(p *BinaryProtocol) bool = tagl(p) > 0 && tagv(p) <= uint64(len(p.Buf) - p.Read - tagl(p))
@@ -136,14 +156,17 @@ package binary
 //@   ensures ok: old(ld_ok(p)) ==> r1 == nil && len(r0) == int(old(tagv(p))) && p.Read == old(p.Read) + old(tagl(p)) + len(r0) && \
 //@       sameregion(r0, p.Buf) && offset(r0) == offset(p.Buf) + old(p.Read) + old(tagl(p))
 //@   ensures bad: !old(ld_ok(p)) ==> r1 != nil && p.Read == old(p.Read)
+//@   ensures adv: old(p.Read) <= p.Read && (r1 == nil ==> old(p.Read) < p.Read)
 //@   modifies p.Read
 
 //@ spec (*BinaryProtocol).ReadString
 //@   props C20 C06 C07
 //@   cases tagl(p) in 0..10
+//@   timeout 40
 //@   ensures ok: old(ld_ok(p)) ==> err == nil && len(value) == int(old(tagv(p))) && p.Read == old(p.Read) + old(tagl(p)) + len(value)
 //@   ensures bytes: err == nil ==> forall i :: 0 <= i && i < len(value) ==> value[i] == p.Buf[old(p.Read) + old(tagl(p)) + i]
 //@   ensures bad: !old(ld_ok(p)) ==> err != nil && p.Read == old(p.Read)
+//@   ensures adv: old(p.Read) <= p.Read && (err == nil ==> old(p.Read) < p.Read)
 //@   modifies p.Read
 
 // ---- skipping ------------------------------------------------------------------------------------------
@@ -164,6 +187,7 @@ package binary
 //@   cases tagl(p) in 0..10
 //@   ensures ok: old(ld_ok(p)) ==> r1 == nil && p.Read == old(p.Read) + old(tagl(p)) + int(old(tagv(p)))
 //@   ensures bad: !old(ld_ok(p)) ==> r1 != nil && p.Read == old(p.Read)
+//@   ensures adv: old(p.Read) <= p.Read && (r1 == nil ==> old(p.Read) < p.Read)
 //@   modifies p.Read
 
 //@ spec (*BinaryProtocol).Skip
